@@ -118,6 +118,15 @@ ROLES = {
     # a lambda whose DEFAULT is a lambda with a parameter spelled like a captured variable that the outer lambda reads
     "lambdadefaultlambda": "def R0():\n    {N} = 1\n    def cap0():\n        nonlocal {N}\n        {N} += 1\n    cap0()\n    gq9 = lambda fq9=lambda {N}: {N} * 10, *aq9, kq9=lambda *{N}: len({N}): (fq9({N}), kq9({N}, {N}), {N})\n{FI}    return gq9(), {N}, c0\nprint(R0())\n",
     "classinfuncnamed": "def {N}(p1, q1=2):\n    r1 = p1 + q1\n    class C1:\n        a1 = p1\n        b1 = [r1 for e1 in range(1)]\n        def m1(self):\n            return p1 + q1 + r1\n    r1 += 1\n    return C1.a1, C1.b1, C1().m1()\n{F}print({N}(1), c0)\n",
+    # keyword-only lambda parameters spelled like a captured variable
+    "lambdakwonly": "def R0():\n    {N} = 41\n    def cap0():\n        nonlocal {N}\n        {N} += 1\n    cap0()\n    hq9 = lambda *, {N}: {N} * 2\n    iq9 = lambda aq9, *, {N}=5, **kq9: ({N}, aq9)\n{FI}    return {N}, hq9({N}=3), iq9(1), iq9(2, {N}=7), c0\nprint(R0())\n",
+    # the identifier is read by lambdas / comprehensions INSIDE loops (whose lowering introduces helper variables)
+    "readinloops": "{N} = 41\nqq9 = 0\nrq9 = []\nwhile qq9 < 2:\n    qq9 += 1\n    rq9.append((lambda: {N})())\nfor eq9 in [1, 2]:\n    rq9.append([(lambda: {N})() for zq9 in [0]])\n    if eq9 == 2:\n        break\n{F}print({N}, rq9, c0)\n",
+    # a class body that declares the name global, below a function with a local of that spelling
+    "classglobaldecl": "{N} = 41\ndef R0():\n    {N} = 7\n    class C1:\n        global {N}\n        a1 = {N}\n        def m1(s1):\n            return {N}\n        b1 = [e1 for e1 in (a1, {N})]\n    return C1.a1, C1().m1(), C1.b1, {N}\n{F}print(R0(), {N}, c0)\n",
+    # ... the same while NO nested function captures the function's local (it is a plain variable of the lowered function)
+    "classglobaldecl2": "{N} = 41\ndef R0():\n    {N} = 7\n    class C1:\n        global {N}\n        a1 = {N}\n        {N} = {N} + 1\n        b1 = [e1 for e1 in (a1, {N})]\n    return C1.a1, C1.b1, {N}\n{F}print(R0(), {N}, c0)\n",
+    "readinloopsfunc": "{N} = 41\ndef R0():\n    qq9 = 0\n    rq9 = []\n    while qq9 < 2:\n        qq9 += 1\n        rq9.append((lambda: {N})())\n    for eq9 in [1, 2]:\n        rq9.append([(lambda: {N})() for zq9 in [0]])\n        if eq9 == 2:\n            break\n    return rq9\n{F}print({N}, R0(), c0)\n",
     "funcwithcomp": "def {N}(a1, b1=2):\n    return [e1 + a1 for e1 in range(b1)]\n{F}print({N}(1), c0)\n",
 }
 _OL = re.compile(r"__ol_[A-Za-z0-9_]+")
@@ -143,7 +152,10 @@ def cell_excluded(ident, role, feat, switches):
                      "compsamename": ["type", "setattr"], "funccaptured": ["hasattr"],
                      "funcglobaldecl": ["globals", "hasattr"], "classnamedbody": ["type", "setattr"],
                      "funcinfunc": ["hasattr"], "lambdadefaultlambda": ["hasattr"],
-                     "classinfuncnamed": ["hasattr", "type", "setattr"]}.get(role, []))
+                     "classinfuncnamed": ["hasattr", "type", "setattr"], "lambdakwonly": ["hasattr"],
+                     "readinloops": ["__import__", "hasattr", "type", "setattr", "iter", "next"],
+                     "classglobaldecl": ["type", "setattr", "globals"], "classglobaldecl2": ["type", "setattr", "globals"],
+                     "readinloopsfunc": ["__import__", "hasattr", "type", "setattr", "iter", "next"]}.get(role, []))
         if role == "classattr":
             return None   # a class attribute does not shadow a builtin for the generated code
         if ident in used:
